@@ -473,17 +473,31 @@ theorem zoom_axis_adjoint (n m nfft nfftInv : ℕ) (hok : ZoomAxisOK n m nfft nf
 /-! ## Matrix-valued FourierFilter (`fourier_operations.py`, `_operation`, matrix-field branch) -/
 
 /-- **FourierFilter with a matrix transfer function: `backward` is the adjoint of `forward`.**
-Model (`filterM`, Lemmas/FourierC02R4.lean): `forward x = Pᴴ·F⁻¹·(D·(F·P·x))` with `P` the zero
-padding into the internal array, `Pᴴ` the cut-out, `F` the transform matrix of `fftn`,
+Code model `filterMX` (Model/FilterM.lean, run by the driver op `C02 filterm` and compared with
+`FourierFilter.forward/backward` on 2-component fields): `forward x = Pᴴ·F⁻¹·(D·(F·P·x))` with `P`
+the zero padding into the internal array, `Pᴴ` the cut-out, `F` the transform matrix of `fftn`,
 `F⁻¹ = c⁻¹·Fᴴ` that of `ifftn` (unnormalised DFT: `c = M`, real), and `D r` a 2×2 matrix applied
 to the two tensor components at every frequency sample `r` (`field_dot`); the adjoint call uses
-`field_conjugate_transpose(D)` (`fmCtr`).  Unweighted inner product over samples and components.
-The identity needs only `c` real (no unitarity of `F`, any `P`). -/
+`field_conjugate_transpose(D)` (`fmCtrX`).  Unweighted inner product over samples and components.
+The identity needs only `c` real (no unitarity of `F`, any `P`, any `D`). -/
 theorem filterM_adjoint (n M : ℕ) (P F : ℕ → ℕ → ℂ) (c : ℂ) (hc : conj c = c)
-    (D : ℕ → Fin 2 → Fin 2 → ℂ) (x y : Fin 2 → ℕ → ℂ) :
-    ∑ a, ∑ i ∈ range n, conj (y a i) * filterM n M P F c D x a i
-      = ∑ a, ∑ i ∈ range n, conj (filterM n M P F c (fmCtr D) y a i) * x a i :=
-  filterM_adjoint_aux n M P F c hc D x y
+    (D : ℕ → Bool → Bool → ℂ) (x y : Bool → ℕ → ℂ) :
+    ∑ a, ∑ i ∈ range n, conj (y a i) * filterMX n M P F (starRingEnd ℂ) c⁻¹ D x a i
+      = ∑ a, ∑ i ∈ range n,
+          conj (filterMX n M P F (starRingEnd ℂ) c⁻¹ (fmCtrX (starRingEnd ℂ) D) y a i) * x a i :=
+  filterMX_adjoint n M P F c hc D x y
+
+/-- Without the transposition in `field_conjugate_transpose` (entry-wise conjugate only) the
+backward call is **not** the adjoint: `n = M = 1`, `P = F = c = 1`, `D = [[0,1],[0,0]]`,
+`x = e₁`, `y = e₀`. -/
+theorem Bad.filterM_conj_only_not_adjoint :
+    ∃ (D : ℕ → Bool → Bool → ℂ) (x y : Bool → ℕ → ℂ),
+      ∑ a, ∑ i ∈ range 1, conj (y a i) * filterMX 1 1 (fun _ _ => 1) (fun _ _ => 1) (starRingEnd ℂ) 1⁻¹ D x a i
+        ≠ ∑ a, ∑ i ∈ range 1,
+            conj (filterMX 1 1 (fun _ _ => 1) (fun _ _ => 1) (starRingEnd ℂ) 1⁻¹ (fun r a b => conj (D r a b)) y a i) * x a i := by
+  refine ⟨fun _ a b => if a = false ∧ b = true then 1 else 0, fun b _ => if b = true then 1 else 0,
+    fun a _ => if a = false then 1 else 0, ?_⟩
+  simp [filterMX, fmSynthesisX, fmAnalysisX, sumRange]
 
 /-- satisfiability of the hypothesis of `filterM_adjoint`: the DFT normalisation `c = M` is real -/
 example (M : ℕ) : conj (M : ℂ) = (M : ℂ) := Complex.conj_natCast M
